@@ -172,9 +172,25 @@ def _sequence(rng, n_ops, boundary):
                 lines.append('enu.state')
             continue
         if r < 0.08:
+            prev = anchor
             anchor = _anchor(rng, boundary)
+            if rng.chance(0.5):
+                # re-anchoring at a reference that shares components (bit for bit) with the frame being replaced:
+                # "re-anchoring elsewhere fully replaces the old frame" must not depend on what changed
+                m = rng.below(5)
+                if m == 0:
+                    anchor = (prev[0], prev[1], min(max(prev[2] + rng.uniform(-500, 500), HMIN), HMAX))   # same lat/lon, new altitude
+                elif m == 1:
+                    anchor = (prev[0], anchor[1], prev[2])                                             # only the longitude moves
+                elif m == 2:
+                    anchor = (anchor[0], prev[1], prev[2])                                             # only the latitude moves
+                elif m == 3:
+                    anchor = (prev[0], prev[1], anchor[2])                                             # same lat/lon, unrelated altitude
+                else:
+                    anchor = prev                                                                      # identical reference again
             lines.append(_g('enu.anchor', anchor))
             lines.append('enu.state')
+            lines.append(_g('enu.toenu_geo', anchor))                                                   # the new reference -> origin
         elif r < 0.16:
             anchored = False
             lines.append('enu.reset')
